@@ -71,6 +71,9 @@ func NewSchema(config SchemaConfig) (Schema, error) {
 	}
 	// Ensure directive definitions are error-free
 	for _, dir := range schema.directives {
+		if err = invariant(dir != nil, "Schema directives must be Directive but got: nil."); err != nil {
+			return schema, err
+		}
 		if dir.err != nil {
 			return schema, dir.err
 		}
@@ -96,6 +99,10 @@ func NewSchema(config SchemaConfig) (Schema, error) {
 	initialTypes = append(initialTypes, config.Types...)
 
 	for _, ttype := range initialTypes {
+		if ttype == nil {
+			// like the type map reducer, ignore a nil entry
+			continue
+		}
 		if ttype.Error() != nil {
 			return schema, ttype.Error()
 		}
@@ -187,6 +194,10 @@ func (gq *Schema) AddImplementation() error {
 //Edited. To check add Types at RunTime..
 //Append Runtime schema to typeMap
 func (gq *Schema) AppendType(objectType Type) error {
+	if objectType == nil {
+		// like a nil entry of SchemaConfig.Types
+		return nil
+	}
 	if objectType.Error() != nil {
 		return objectType.Error()
 	}
